@@ -945,6 +945,13 @@ class Scalars:
         if isinstance(a, Opaque) and isinstance(b, Opaque) and a.name in ('datetime', 'timedelta'):
             from . import models_time
             return models_time.dt_compare(self.I, op, a, b)
+        if isinstance(op, (ast.Eq, ast.NotEq)) and any(isinstance(x, Opaque) and hasattr(x, 'eq_value') for x in (a, b)):
+            # abstract value with its own notion of equality against concrete values (e.g. a field of a csv row against '')
+            o, other = (a, b) if (isinstance(a, Opaque) and hasattr(a, 'eq_value')) else (b, a)
+            r = o.eq_value(self.I, other)
+            if isinstance(op, ast.Eq):
+                return r
+            return (not r) if isinstance(r, bool) else z3.Not(r)
         if any(isinstance(x, Opaque) and x.name == 'inf' for x in (a, b)):
             # model R: every real is finite and NaN equals nothing - a float value is never equal to +-inf
             other = b if (isinstance(a, Opaque) and a.name == 'inf') else a
